@@ -43,7 +43,10 @@ def lean_obligations(pid):
                         res["ok"] = False
                         res["errors"].append(f"forbidden construct in {f}: {ln.strip()[:120]}")
     pdir = os.path.join(LEAN, "Micm", "Properties")
-    pfiles = sorted(f for f in os.listdir(pdir) if re.fullmatch(pid + r"[a-z]?\.lean", f))
+    root = open(os.path.join(LEAN, "Micm.lean")).read()
+    # only property files that are part of the library (imported by Micm.lean) are obligations
+    pfiles = sorted(f for f in os.listdir(pdir) if re.fullmatch(pid + r"[a-z]?\.lean", f)
+                    and re.search(r"^import Micm\.Properties\." + f[:-5] + r"\s*$", root, flags=re.M))
     if not pfiles:
         res["ok"] = False
         res["errors"].append("no Properties/" + pid + ".lean")
